@@ -32,7 +32,8 @@ def eval_monad_char(a, backend):
                   :#10  -->  :"newline character"
 
     """
-    return backend.rec_fn(a, lambda x: KGChar(chr(x))) if is_list(a) else KGChar(chr(a))
+    f = lambda x: x if is_list(x) else KGChar(chr(x))  # an empty list stays an empty list
+    return backend.rec_fn(a, f) if is_list(a) else f(a)
 
 
 def eval_monad_enumerate(a, backend):
